@@ -372,16 +372,17 @@ theorem nv_C13_radial_call_unsupported :
 
 theorem nv_C13_vonmises :
     (1 / 1000000 : ℝ) < 15 / 16 ∧
-    vonMises TF.real (3 * π / 4) (15 / 16) [0, 1, 1 / 2, 1 / 2, 3 / 4] =
-      some (TF.real.fmod (3 * π / 4 + arccos (3 / 5)) (2 * π), []) ∧
-    (∃ (f u3 : ℝ) (k : ℤ),
-      (1 / 2 < u3 ∧ TF.real.fmod (3 * π / 4 + arccos (3 / 5)) (2 * π) = 3 * π / 4 + arccos f - 2 * π * k) ∨
-      (u3 ≤ 1 / 2 ∧ TF.real.fmod (3 * π / 4 + arccos (3 / 5)) (2 * π) = 3 * π / 4 - arccos f - 2 * π * k)) ∧
-    directionKappa TF.real .SE (15 / 16) = 15 / 16 :=
+    vonMisesLoop TF.real (15 / 16) (vonMisesR TF.real (15 / 16)) [0, 1, 1 / 2, 1 / 2, 3 / 4] = some (3 / 5, [3 / 4]) ∧
+    (∃ (theta : ℝ) (k : ℤ),
+      vonMises TF.real (3 * π / 4) (15 / 16) [0, 1, 1 / 2, 1 / 2, 3 / 4] = some (theta, []) ∧
+      theta = (if (1 / 2 : ℝ) < 3 / 4 then 3 * π / 4 + arccos (3 / 5) else 3 * π / 4 - arccos (3 / 5)) - 2 * π * k) ∧
+    directionKappa TF.real .SE (15 / 16) = 15 / 16 := by
   have hk : (1 / 1000000 : ℝ) < 15 / 16 := by norm_num
-  have hv := vm_val (3 * π / 4)
+  have hl : vonMisesLoop TF.real (15 / 16) (vonMisesR TF.real (15 / 16)) [0, 1, 1 / 2, 1 / 2, 3 / 4] =
+      some (3 / 5, (3 / 4 : ℝ) :: []) := by
+    rw [vmR]; exact vmLoop _
   have t := C13_vonmises (3 * π / 4) (15 / 16)
-  ⟨hk, hv, t.2.2.1 _ _ _ hk hv, (t.2.2.2 .SE (by decide)).1⟩
+  exact ⟨hk, hl, t.2.2.1 _ _ _ _ hk hl, (t.2.2.2 .SE (by decide)).1⟩
 
 /-- The branch `kappa <= 1e-6`. -/
 theorem nv_C13_vonmises_small :
